@@ -122,3 +122,78 @@ func goCache() string {
 	home, _ := os.UserHomeDir()
 	return filepath.Join(home, ".cache", "go-build")
 }
+
+// ---- thorough tier: template sweep ----------------------------------------------
+//
+// The replay templates are small property-level searches on the REAL code (forks at
+// several depths, block scoping, an expression corpus, goroutine dumps ...). In the
+// thorough tier every template that concerns the property is also run when no
+// obligation failed: a reproduction there is a violation the contracts did not see.
+// This is a cross-check of the proof, never a substitute for it: it adds nothing to
+// the obligations counted as discharged.
+
+var templateProps = map[string][]string{
+	"TestGovcReplayAuthorizerOptions": {"C11"},
+	"TestGovcReplayBlockScoping":      {"C03", "C04"},
+	"TestGovcReplayEntropy":           {"C20"},
+	"TestGovcReplayExprCorpus":        {"C14"},
+	"TestGovcReplayExprTermNil":       {"C14"},
+	"TestGovcReplayFork":              {"C07", "C08", "C17", "C19"},
+	"TestGovcReplayJoin":              {"C05"},
+	"TestGovcReplayKeyID":             {"C16"},
+	"TestGovcReplayResetLeak":         {"C13"},
+	"TestGovcReplaySharedCapacity":    {"C08", "C19"},
+	"TestGovcReplayShortSecret":       {"C10"},
+	"TestGovcReplaySiblings":          {"C08", "C19"},
+	"TestGovcReplayStrandApply":       {"C11"},
+	"TestGovcReplayStrandRun":         {"C11"},
+}
+
+type sweepResult struct {
+	Template   string `json:"template"`
+	Outcome    string `json:"outcome"` // not-reproduced | REPRODUCED | error
+	FirstLine  string `json:"first_line,omitempty"`
+	ReplayFile string `json:"replay_file,omitempty"`
+}
+
+func sweepTemplates(verifDir, prop string) []sweepResult {
+	var out []sweepResult
+	seen := map[string]bool{}
+	for _, e := range readReplayIndex(verifDir) {
+		if seen[e.Test] {
+			continue
+		}
+		concerns := false
+		for _, p := range templateProps[e.Test] {
+			if p == prop {
+				concerns = true
+			}
+		}
+		if !concerns {
+			continue
+		}
+		seen[e.Test] = true
+		txt, err := runReplayTest(verifDir, e, "", "sweep/"+prop)
+		r := sweepResult{Template: e.Test, Outcome: "not-reproduced"}
+		if err != nil {
+			r.Outcome = "error"
+			r.FirstLine = err.Error()
+		}
+		for _, l := range strings.Split(txt, "\n") {
+			l = strings.TrimSpace(l)
+			if strings.HasPrefix(l, "REPRODUCED:") {
+				r.Outcome, r.FirstLine = "REPRODUCED", l
+				dir := filepath.Join(verifDir, "replays", prop)
+				os.MkdirAll(dir, 0o755)
+				r.ReplayFile = filepath.Join(dir, "sweep_"+e.Test+".txt")
+				os.WriteFile(r.ReplayFile, []byte("thorough-tier template sweep: "+e.Test+" on the real code\n\n"+txt+"\n\nresult: failing input reproduced on the real code\n"), 0o644)
+				break
+			}
+			if strings.HasPrefix(l, "NOT-REPRODUCED:") && r.FirstLine == "" {
+				r.FirstLine = l
+			}
+		}
+		out = append(out, r)
+	}
+	return out
+}
